@@ -100,12 +100,13 @@ package engine
 //@ func (m GenericNodeMatcher) Match(got, d, r) (d1, ok)
 //@   requires typing: kind(got) == 20 || kind(got) == 22
 //@   requires m.Matcher != nil
-//@   requires typing: !risnil(got) ==> implements(rvIface(got), "go/ast.Node")
+//@   requires typing: !risnil(got) ==> implements(rvIface(got), "go/ast.Node") && rvIface(got).typ != dyn("*go/ast.CommentGroup")
 //@   unfold MatchOK(boxed(m), got, dmap(d), r) == MatchOK(m.Matcher, got, dmap(d), ite(risnil(got), r, nodeRegionOf(rvIface(got))))
 //@   unfold MatchD(boxed(m), got, dmap(d), r) == MatchD(m.Matcher, got, dmap(d), ite(risnil(got), r, nodeRegionOf(rvIface(got))))
 
 //@ func nodeRegion(n) (r)
 //@   requires n != nil
+//@   requires [C08] a-comment-group-asked-where-it-is-has-comments: n.typ == dyn("*go/ast.CommentGroup") ==> n.val != nil && len(as("*go/ast.CommentGroup", n.val).List) > 0
 //@   ensures r == nodeRegionOf(n)
 //@   assigns nothing
 
@@ -235,7 +236,7 @@ package engine
 //@   requires typing: rtype(got) == gt("ForStmtPtrType") || rtype(got) == gt("RangeStmtPtrType") ==> !risnil(got) && kind(relem(got)) == 25
 //@   requires typing: m.Body != nil
 //@   requires typing: gt("ForStmtPtrType") != nil && gt("RangeStmtPtrType") != nil
-//@   requires typing: rtype(got) == gt("ForStmtPtrType") || rtype(got) == gt("RangeStmtPtrType") ==> lastNamed(rtype(relem(got)), "Body", numfield(rtype(relem(got)))) >= 0 && forall k int {tfieldName(rtype(relem(got)), k)} :: 0 <= k && k < numfield(rtype(relem(got))) && tfieldName(rtype(relem(got)), k) == "Body" ==> implements(rvIface(fld(relem(got), k)), "go/ast.Node")
+//@   requires typing: rtype(got) == gt("ForStmtPtrType") || rtype(got) == gt("RangeStmtPtrType") ==> lastNamed(rtype(relem(got)), "Body", numfield(rtype(relem(got)))) >= 0 && forall k int {tfieldName(rtype(relem(got)), k)} :: 0 <= k && k < numfield(rtype(relem(got))) && tfieldName(rtype(relem(got)), k) == "Body" ==> implements(rvIface(fld(relem(got), k)), "go/ast.Node") && rvIface(fld(relem(got), k)).typ != dyn("*go/ast.CommentGroup")
 //@   unfold MatchOK(boxed(m), got, dmap(d), r) == ((rtype(got) == gt("ForStmtPtrType") || rtype(got) == gt("RangeStmtPtrType")) && MatchOK(m.Body, forBodyV(got), forPushedD(m.Dots, got, dmap(d), r), forBodyR(got)))
 //@   unfold MatchD(boxed(m), got, dmap(d), r) == MatchD(m.Body, forBodyV(got), forPushedD(m.Dots, got, dmap(d), r), forBodyR(got))
 //@   unfold-post forPushedD(m.Dots, got0, dmap(d), r0) == dmap(ret("data.WithValue", 0))
@@ -473,8 +474,9 @@ package engine
 //@   invariant forall i int {matches[i]} :: 0 <= i && i < len(matches) ==> matches[i] != nil && allocated(matches[i]) && matches[i].data != nil && slotTyped(matches[i].parent, matches[i].name, matches[i].index)
 //@   requires typing: curNode(cursor) != nil ==> slotTyped(curParent(cursor), curName(cursor), curIndex(cursor))
 //@   assigns matches, elems(matches)
-//@   ensures [C01,C03] never-prunes: curNode(cursor) != nil ==> res
-//@   ensures [C01] records-exactly-the-instances: curNode(cursor) != nil ==> len(matches) == old(len(matches)) + ite(MatchOK(m.NodeMatcher, rvOf(curNode(cursor)), dmap(d), nodeRegionOf(curNode(cursor))), 1, 0)
+//@   ensures [C01,C03] never-prunes-code: curNode(cursor) != nil && curNode(cursor).typ != dyn("*go/ast.CommentGroup") ==> res
+//@   ensures [C08,C17] comments-are-not-code: curNode(cursor) != nil && !(curNode(cursor).typ != dyn("*go/ast.CommentGroup")) ==> !res && len(matches) == old(len(matches))
+//@   ensures [C01] records-exactly-the-instances: curNode(cursor) != nil && curNode(cursor).typ != dyn("*go/ast.CommentGroup") ==> len(matches) == old(len(matches)) + ite(MatchOK(m.NodeMatcher, rvOf(curNode(cursor)), dmap(d), nodeRegionOf(curNode(cursor))), 1, 0)
 //@   ensures [C01] nil-node-records-nothing: curNode(cursor) == nil ==> len(matches) == old(len(matches))
 //@   ensures [C01] earlier-matches-kept: forall i int {matches[i]} :: 0 <= i && i < old(len(matches)) ==> matches[i] == old(matches[i])
 //@   ensures [C01,C03] recorded-slot-is-the-cursor-slot: len(matches) > old(len(matches)) ==> matches[old(len(matches))] != nil && matches[old(len(matches))].parent == curParent(cursor) && matches[old(len(matches))].name == curName(cursor) && matches[old(len(matches))].index == curIndex(cursor) && matches[old(len(matches))].region == nodeRegionOf(curNode(cursor))
